@@ -296,3 +296,101 @@ def ctr_crypt(ecb, t0, data):
     ctrs = b''.join(((t + i) % (1 << 128)).to_bytes(16, 'big') for i in range(n))
     ks = ecb(ctrs) if n else b''
     return bytes(a ^ b for a, b in zip(bytes(data), ks))
+
+
+# --------------------------------------------------------------------------- AES-GCM / AES-CCM
+def _gf_mul(x, y):
+    """SP 800-38D 6.3 Algorithm 1 on 128-bit integers (leftmost bit = msb)"""
+    z, v = 0, y
+    R = 0xe1 << 120
+    for i in range(128):
+        if (x >> (127 - i)) & 1:
+            z ^= v
+        v = (v >> 1) ^ R if v & 1 else v >> 1
+    return z
+
+
+def _ghash(h, data):
+    y = 0
+    for i in range(0, len(data), 16):
+        y = _gf_mul(y ^ int.from_bytes(data[i:i + 16], 'big'), h)
+    return y
+
+
+def _pad16z(b):
+    return bytes(b) + b'\x00' * (-len(b) % 16)
+
+
+def gcm_seal(ecb, iv, p, a):
+    """ecb(blocks) = AES-ECB under the key; 96-bit IV"""
+    p, a, iv = bytes(p), bytes(a), bytes(iv)
+    n = (len(p) + 15) // 16
+    ctrs = b''.join(iv + struct.pack('>L', (2 + i) & 0xffffffff) for i in range(n))
+    out = ecb(bytes(16) + iv + b'\x00\x00\x00\x01' + ctrs)
+    h, ek_j0, ks = int.from_bytes(out[:16], 'big'), out[16:32], out[32:]
+    c = bytes(x ^ y for x, y in zip(p, ks))
+    s = _ghash(h, _pad16z(a) + _pad16z(c) + struct.pack('>QQ', len(a) * 8, len(c) * 8))
+    t = bytes(x ^ y for x, y in zip(s.to_bytes(16, 'big'), ek_j0))
+    return c + t
+
+
+def gcm_open(ecb, iv, c, a):
+    c = bytes(c)
+    if len(c) < 16:
+        return None
+    ct, tag = c[:-16], c[-16:]
+    n = (len(ct) + 15) // 16
+    ctrs = b''.join(bytes(iv) + struct.pack('>L', (2 + i) & 0xffffffff) for i in range(n))
+    out = ecb(bytes(16) + bytes(iv) + b'\x00\x00\x00\x01' + ctrs)
+    h, ek_j0, ks = int.from_bytes(out[:16], 'big'), out[16:32], out[32:]
+    s = _ghash(h, _pad16z(a) + _pad16z(ct) + struct.pack('>QQ', len(a) * 8, len(ct) * 8))
+    if bytes(x ^ y for x, y in zip(s.to_bytes(16, 'big'), ek_j0)) != tag:
+        return None
+    return bytes(x ^ y for x, y in zip(ct, ks))
+
+
+def ossl_gmac(key, iv, aad):
+    out = openssl(['mac', '-cipher', 'AES-%d-GCM' % (len(key) * 8), '-macopt', 'hexkey:' + bytes(key).hex(),
+                   '-macopt', 'hexiv:' + bytes(iv).hex(), 'GMAC'], bytes(aad))
+    return bytes.fromhex(out.decode().strip())
+
+
+def _ccm_parts(M, nonce, a, m):
+    L = 15 - len(nonce)
+    b0 = bytes([64 * (len(a) > 0) + 8 * ((M - 2) // 2) + (L - 1)]) + bytes(nonce) + len(m).to_bytes(L, 'big')
+    if len(a) == 0:
+        enc = b''
+    elif len(a) < 2 ** 16 - 2 ** 8:
+        enc = len(a).to_bytes(2, 'big')
+    elif len(a) < 2 ** 32:
+        enc = b'\xff\xfe' + len(a).to_bytes(4, 'big')
+    else:
+        enc = b'\xff\xff' + len(a).to_bytes(8, 'big')
+    return L, b0 + (_pad16z(enc + bytes(a)) if a else b'') + _pad16z(m)
+
+
+def ccm_seal(ecb, M, nonce, m, a):
+    """RFC 3610; ecb(blocks) = AES-ECB under the key"""
+    m, a, nonce = bytes(m), bytes(a), bytes(nonce)
+    L, mac_in = _ccm_parts(M, nonce, a, m)
+    x = bytes(16)
+    for i in range(0, len(mac_in), 16):
+        x = ecb(bytes(p ^ q for p, q in zip(x, mac_in[i:i + 16])))
+    n = (len(m) + 15) // 16
+    s = ecb(b''.join(bytes([L - 1]) + nonce + i.to_bytes(L, 'big') for i in range(0, n + 1)))
+    c = bytes(p ^ q for p, q in zip(m, s[16:]))
+    return c + bytes(p ^ q for p, q in zip(x[:M], s[:16]))
+
+
+def ccm_open(ecb, M, nonce, c, a):
+    c, nonce = bytes(c), bytes(nonce)
+    if len(c) < M:
+        return None
+    ct, u = c[:len(c) - M], c[len(c) - M:]
+    L = 15 - len(nonce)
+    n = (len(ct) + 15) // 16
+    s = ecb(b''.join(bytes([L - 1]) + nonce + i.to_bytes(L, 'big') for i in range(0, n + 1)))
+    m = bytes(p ^ q for p, q in zip(ct, s[16:]))
+    if ccm_seal(ecb, M, nonce, m, a) != c:
+        return None
+    return m
